@@ -210,7 +210,9 @@ def _modes_layout(model: Model, fc, T: RuleResult):
             T.ok(pf.fq, "the evaluation under useobjparams is part of %s (no separate record to agree on)" % pf.name)
         # graph-recording mode: evaluates inside useobjparams(<copies>) with fresh clones
         src = ast.unparse(pf.node)
-        if "useobjparams" in src and "clone().requires_grad_()" in src:
-            T.ok(pf.fq, "graph-recording mode evaluates under useobjparams(<fresh clones>)")
+        # (how the copies are made - clone when the graph is recorded, detach otherwise - is AC9 / AC13's question, decided there by
+        #  provenance; this rule used to look for the text `clone().requires_grad_()` and fired on a copy helper chosen at entry)
+        if "useobjparams" in src:
+            T.ok(pf.fq, "the dynamics are evaluated under useobjparams(<copies>) (the kind of copy is decided by AC9 / AC13)")
         else:
             T.bad(pf, pf.node, "graph-recording mode must evaluate the function under useobjparams(<fresh clones>)")
